@@ -53,6 +53,18 @@ S3H = "0.866025403784"     # √3/2 truncated to 12 decimals
 S36 = "0.288675134595"     # √3/6
 
 
+
+def _traps():
+    out = []
+    for W in range(1, 10):
+        for d in (1, 10, 50, 100, 500, 1000, 2000, 20, 250):
+            for dt in ("0.002", "0.001", "0.005", "0.01", "0.004", "0.0025"):
+                per = float(fdec(W * d * F(dt)))
+                if int(per / (float(dt) * d)) != W:
+                    out.append((W, d, dt))
+    return out
+
+
 def fdec(x):
     """exact decimal string of a Fraction whose denominator divides a power of 10 (else 18 decimals)"""
     x = F(x)
@@ -251,6 +263,13 @@ def add_common(rng, c):
         W = rng.randint(1, T - 1)
         dstep = c["steps"][1] - c["steps"][0]
         c["period"] = fdec((W + F(rng.choice(["0.5", "0.25", "0.75", "0.1", "0", "0"]))) * dstep * F(c["dt"]))
+        traps = [x for x in _traps() if x[0] <= T - 1]
+        if traps and len(set(np.diff(c["steps"]))) == 1 and rng.random() < 0.3:
+            # an exact multiple whose float64 quotient period/(Δstep·dt) falls just below the integer (0.3/0.1 = 2.999…96)
+            W, d, dt = rng.choice(traps)
+            c["steps"] = [c["steps"][0] + d * k for k in range(T)]
+            c["dt"] = dt
+            c["period"] = fdec(W * d * F(dt))
     c["rdelta"] = rng.choice(["0.13", "0.31", "0.17"] if c["lat_l"] else ["0.07", "0.13", "0.2", "0.31", "0.053"])
     return c
 
